@@ -125,76 +125,35 @@ theorem C01_nodelist_bound (l : NL) (ops : List (Sum (RR × Nat) (List ASlot))) 
     | inr slots => exact releaseSlots_bound l slots h
 
 open RPVerif.NodeList in
-/-- with search and booking in one lock section every schedule of calls from any number of threads is the calls one
-    after the other, in the order the lock let them in: same answers, same node -/
-theorem crun_atomic (steps : List CStep) : ∀ (s : CState), s.pend = [] →
-    (crun true s steps).node = (seqCalls s.node steps).1 ∧ (crun true s steps).got = s.got ++ (seqCalls s.node steps).2
-    ∧ (crun true s steps).pend = [] := by
-  induction steps with
-  | nil => intro s hp; simp [crun, seqCalls, hp]
-  | cons st rest ih =>
-    intro s hp
-    cases st with
-    | book k =>
-      have e : cstep true s (.book k) = s := by simp [cstep, hp]
-      simp only [crun, List.foldl_cons, e, seqCalls]
-      exact ih s hp
-    | call k rr =>
-      simp only [crun, List.foldl_cons, seqCalls]
-      cases hf : findSlot s.node rr with
-      | none =>
-        have e : cstep true s (.call k rr) = { s with got := s.got ++ [(k, none)] } := by simp [cstep, hf]
-        rw [e]
-        have := ih { s with got := s.got ++ [(k, none)] } hp
-        simp only [crun] at this
-        refine ⟨this.1, ?_, this.2.2⟩
-        rw [this.2.1]; simp
-      | some p =>
-        obtain ⟨sl, n'⟩ := p
-        have e : cstep true s (.call k rr) = { s with node := n', got := s.got ++ [(k, some sl)] } := by simp [cstep, hf]
-        rw [e]
-        have := ih { s with node := n', got := s.got ++ [(k, some sl)] } hp
-        simp only [crun] at this
-        refine ⟨this.1, ?_, this.2.2⟩
-        rw [this.2.1]; simp
-
-open RPVerif.NodeList in
-theorem seqCalls_bound (steps : List CStep) : ∀ (n : ANode), OccBound n → OccBound (seqCalls n steps).1 := by
-  induction steps with
-  | nil => intro n h; exact h
-  | cons st rest ih =>
-    intro n h
-    cases st with
-    | book k => exact ih n h
-    | call k rr =>
-      simp only [seqCalls]
-      cases hf : findSlot n rr with
-      | none => exact ih n h
-      | some p => exact ih p.2 (findSlot_bound n p.2 rr p.1 h (by rw [hf]))
-
-open RPVerif.NodeList in
-/-- **any number of application threads on one node**, interleaved in any way: with the code as it is
-    (`Gen.findSlotBooksInLock`: `Node.find_slot` searches and books inside one section of the node's lock) no core
+/-- **any number of application threads on one node**, finding and releasing slots, interleaved in any way: with the
+    code as it is (`Gen.findSlotBooksInLock`: `Node.find_slot` searches and books inside one section of the node's
+    lock; `Gen.deallocInLock`: `deallocate_slot` is one section of it, so a release is one step) no core
     and no GPU is ever booked beyond one whole, and threads and node end up as if the calls had been made one after
     the other -/
 theorem C01_node_threads (n : ANode) (steps : List CStep) (h : OccBound n) :
-    OccBound (crun Gen.findSlotBooksInLock ⟨n, [], []⟩ steps).node
-    ∧ (crun Gen.findSlotBooksInLock ⟨n, [], []⟩ steps).node = (seqCalls n steps).1
-    ∧ (crun Gen.findSlotBooksInLock ⟨n, [], []⟩ steps).got = (seqCalls n steps).2 := by
+    OccBound (crun Gen.findSlotBooksInLock Gen.deallocInLock ⟨n, [], [], []⟩ steps).node
+    ∧ (crun Gen.findSlotBooksInLock Gen.deallocInLock ⟨n, [], [], []⟩ steps).node = (seqCalls n steps).1
+    ∧ (crun Gen.findSlotBooksInLock Gen.deallocInLock ⟨n, [], [], []⟩ steps).got = (seqCalls n steps).2 := by
   have e : Gen.findSlotBooksInLock = true := by decide
-  rw [e]
-  obtain ⟨h1, h2, _⟩ := crun_atomic steps ⟨n, [], []⟩ rfl
+  have e2 : Gen.deallocInLock = true := by decide
+  rw [e, e2]
+  obtain ⟨h1, h2, _⟩ := crun_atomic steps ⟨n, [], [], []⟩ rfl rfl
   refine ⟨?_, h1, by simpa using h2⟩
   rw [h1]; exact seqCalls_bound steps n h
 
 open RPVerif.NodeList in
-/-- the lock section matters: with the booking outside it two threads that search before either books are both
-    given core 0 and the node shows it booked twice -/
+/-- the lock sections matter: with the booking outside two threads that search before either books are both given
+    core 0 and the node shows it booked twice; with the release outside, a release that read the node before another
+    thread's grant writes its stale figures back - the grant (100 of lfs) vanishes from the node's books -/
 theorem C01_node_threads_witness :
-    (crun false ⟨⟨0, [some 0, some 0], [], 0, 0⟩, [], []⟩
+    (crun false true ⟨⟨0, [some 0, some 0], [], 0, 0⟩, [], [], []⟩
        [.call 0 ⟨1, 16, 0, 16, 0, 0⟩, .call 1 ⟨1, 16, 0, 16, 0, 0⟩, .book 0, .book 1]).node.cores = [some 32, some 0]
-    ∧ (crun true ⟨⟨0, [some 0, some 0], [], 0, 0⟩, [], []⟩
-       [.call 0 ⟨1, 16, 0, 16, 0, 0⟩, .call 1 ⟨1, 16, 0, 16, 0, 0⟩, .book 0, .book 1]).node.cores = [some 16, some 16] := by
+    ∧ (crun true true ⟨⟨0, [some 0, some 0], [], 0, 0⟩, [], [], []⟩
+       [.call 0 ⟨1, 16, 0, 16, 0, 0⟩, .call 1 ⟨1, 16, 0, 16, 0, 0⟩, .book 0, .book 1]).node.cores = [some 16, some 16]
+    ∧ (crun true false ⟨⟨0, [some 16, some 0], [], 900, 0⟩, [], [], []⟩
+       [.release 0 ⟨0, [(0, 16)], [], 100, 0⟩, .call 1 ⟨1, 16, 0, 16, 100, 0⟩, .write 0]).node.lfs = 1000
+    ∧ (crun true true ⟨⟨0, [some 16, some 0], [], 900, 0⟩, [], [], []⟩
+       [.release 0 ⟨0, [(0, 16)], [], 100, 0⟩, .call 1 ⟨1, 16, 0, 16, 100, 0⟩, .write 0]).node.lfs = 900 := by
   decide
 
 open RPVerif.NodeList in
